@@ -42,6 +42,7 @@ theorem C01_step (f : Forest) (n : Bool) (op : Op) (hf : f.ok = true) :
     | fresh => simp only [step]; exact hf
     | freshTuple k => simp only [step]; exact hf
     | mkRef tg => simp only [step]; exact hf
+    | typedList items => simp only [step]; exact hf
     | ref id => simp only [step]; exact hf
   | clone t deep =>
     cases hfind : f.find? t with
